@@ -400,9 +400,10 @@ impl Run {
     /// Generate `cases` cases per shard over `shards` threads from `strategy`, run `f` on each
     /// (under a panic guard: a panic that `f` did not itself attribute becomes a failure with
     /// signature `panic:<site>`), shrink the first unlisted failure of a shard.
-    pub fn explore<S, T, F>(&self, stream: u64, shards: usize, cases_per_shard: usize, strategy: S, f: F)
+    pub fn explore<S, T, F, M>(&self, stream: u64, shards: usize, cases_per_shard: usize, make: M, f: F)
     where
-        S: Strategy<Value = T> + Sync,
+        M: Fn() -> S + Sync,
+        S: Strategy<Value = T>,
         T: Serialize + std::fmt::Debug + Clone,
         F: Fn(&T) -> Outcome + Sync,
     {
@@ -414,9 +415,10 @@ impl Run {
         };
         std::thread::scope(|scope| {
             for shard in 0..shards {
-                let strategy = &strategy;
+                let make = &make;
                 let run_one = &run_one;
                 scope.spawn(move || {
+                    let strategy = make();
                     let mut runner = runner_for(self.seed, stream.wrapping_mul(1000).wrapping_add(shard as u64));
                     for _ in 0..cases_per_shard {
                         if self.has_violation() {
